@@ -80,5 +80,7 @@ fn main() {
 }
 
 pub fn new_ctx(prop: &str, args: &Args) -> Ctx {
-    Ctx::new(prop, args.tier, args.seed)
+    let c = Ctx::new(prop, args.tier, args.seed);
+    *util::RUN_INFO.lock().unwrap() = Some((prop.to_string(), args.tier.name().to_string(), args.seed, c.level));
+    c
 }
